@@ -344,6 +344,21 @@ Section TableProofs.
   Lemma rget_config calls m p : rget m p (config_of peqb calls) = last_added peqb m p calls None.
   Proof. unfold config_of. rewrite rget_config_gen. reflexivity. Qed.
 
+  (* configuration sequences: getters are inert, the last SetMiddleware wins *)
+  Lemma cfg_run_gen (ops : list (@cfg_op P H)) c :
+    c_routes (fold_left (cfg_step peqb) ops c)
+      = fold_left (fun r c => let '(m, p, h) := c in add_route peqb m p h r) (adds_of ops) (c_routes c)
+    /\ c_mw (fold_left (cfg_step peqb) ops c)
+      = fold_left (fun acc o => match o with OSetMiddleware f => Some f | _ => acc end) ops (c_mw c).
+  Proof.
+    revert c; induction ops as [|o t IH]; intros c; [split; reflexivity|].
+    cbn [fold_left]. destruct (IH (cfg_step peqb c o)) as (A & B). rewrite A, B.
+    destruct o; simpl; split; reflexivity.
+  Qed.
+  Lemma cfg_run_spec (ops : list (@cfg_op P H)) :
+    c_routes (cfg_run peqb ops) = config_of peqb (adds_of ops) /\ c_mw (cfg_run peqb ops) = mw_of_ops ops.
+  Proof. unfold cfg_run, config_of, mw_of_ops. apply (cfg_run_gen ops). Qed.
+
   (* well-formedness of the nested maps: no duplicate keys (Go maps) *)
   Definition keys_nodup {K V} (l : list (K * V)) := NoDup (map fst l).
   Definition routes_wf (r : routes) := keys_nodup r /\ forall m ps, In (m, ps) r -> keys_nodup ps.
@@ -545,6 +560,12 @@ Section TableProofs.
     - rewrite (find_pat_functional t f mGET p Hf). unfold f.
       destruct (last_added peqb mGET p calls None); simpl; [reflexivity|]. rewrite Hk. reflexivity.
     - rewrite Hk. reflexivity.
+  Qed.
+  Lemma serve_cfg_expected (ops : list (@cfg_op P H)) (t : table) m p :
+    Permutation t (build_table (c_routes (cfg_run peqb ops)) (c_mw (cfg_run peqb ops))) ->
+    serve peqb t m p = expected peqb (adds_of ops) (mw_of_ops ops) m p.
+  Proof.
+    destruct (cfg_run_spec ops) as (A & B). rewrite A, B. apply serve_expected.
   Qed.
 End TableProofs.
 
